@@ -206,3 +206,26 @@ check('C20', 'E3', 'model_checking',
       'GIL atomicity of single bytecodes; bidict C code not preempted; '
       'engine.io trusted.',
       'DESIGN.md 6/C20')
+
+check('C19', 'E3+E2', 'model_checking',
+      'stateless schedule exploration: baton-scheduled threads with line-'
+      'level points for SimpleClient, virtual asyncio loop for '
+      'AsyncSimpleClient',
+      'The real SimpleClient runs on the client world; 8 producer/consumer '
+      'scenarios (bursts of 2-3 events, timed receives, final loss, loss '
+      'before any event, emit during a successful reconnection, emit/call '
+      'after a failed one) are executed under every schedule with <= 2 '
+      '(quick) / 3 (thorough) preemptions where every line of '
+      'simple_client.py and every event operation is a scheduling point, '
+      'and under all schedules at event-operation granularity; '
+      'AsyncSimpleClient runs the same scenarios under every order of '
+      'arrivals, server answers, receives and timers. Oracle: returned '
+      'events = arrivals in order without duplicates; blocked-forever '
+      'consumers are reported as lost wake-ups; TimeoutError only if no '
+      'event had fully arrived before the wait expired; DisconnectedError '
+      'only after the final disconnect and an empty buffer; emit() waits '
+      'out a reconnection.',
+      'the server accepts CONNECT on its own thread/task; events are '
+      'handled inline by one producer in arrival order; some scenarios hit '
+      'the execution cap (reported per scenario).',
+      'DESIGN.md 6/C19')
